@@ -107,7 +107,9 @@ def compound_leaves():
             ("GUID", "123E4567-E89B-12D3-A456-426614174ABC"), ("Date", "2020-02-29"), ("Time", "10:30:00"), ("Time", "23:59:59.123456"),
             ("DateTime", "2020-02-29T10:30:00Z"), ("DateTime", "2020-02-29T10:30:00+01:00"), ("DateTime", "2020-02-29T10:30"),
             ("DateTime", "2020-02-29T10:30:00.123456-23:59"), ("Duration", "P1D"), ("Duration", "-P1Y2M3DT4H5M6.5S"), ("Duration", "PT0S"),
-            ("Geography", "POINT(1 2)"), ("Geography", "SRID=4326;POINT(1 2)"), ("Geography", "")]
+            ("Geography", "POINT(1 2)"), ("Geography", "SRID=4326;POINT(1 2)"), ("Geography", ""),
+            # the lexer keeps a geography body raw: doubled quotes stay doubled
+            ("Geography", "POINT(1 2) -- Dave''s place"), ("Geography", "''"), ("Geography", "ab")]
     out += [T.Str(s) for s in strings(2)]
     out += [T.Str("it''s"), T.Str("é\U0001F600"), T.Str("a\\b"), T.Str("line\nbreak")]
     # identifiers
